@@ -137,8 +137,28 @@ def gen_matrix(rng, N, alphabet=None, symmetric=True, tie_free=False):
     return D
 
 
-def gen_instance(rng, nmax=10, nu=0, m=0, tie_free=False, kinds=("feat", "mat", "lattice", "feat", "mat", "lattice", "tiny", "sparse", "literal")):
+def gen_instance(rng, nmax=10, nu=0, m=0, tie_free=False, kinds=("feat", "mat", "lattice", "feat", "mat", "lattice", "tiny", "sparse", "literal", "gridcut", "gridcut")):
     kind = rng.choice(kinds)
+    if kind == "gridcut" and tie_free:
+        kind = "feat"
+    if kind == "gridcut":
+        # partially filled integer grid, classes split by diagonal lines (zero-based labels): many equal arc weights AND
+        # class-structured labels, so some training samples are conquered by another class's tree and conquer others in turn
+        for _ in range(20):
+            gw, gh = rng.randint(2, 4), rng.randint(2, 4)
+            cells = [[float(x), float(y)] for x in range(gw) for y in range(gh) if rng.random() < 0.75]
+            rng.shuffle(cells)
+            cells = cells[:nmax + 2]
+            cut, three = rng.uniform(0.5, gw + gh - 2.5), rng.random() < 0.4
+            labs = [(0 if c_[0] + c_[1] <= cut else (1 if (not three or c_[0] + c_[1] <= cut + 1.5) else 2)) for c_ in cells]
+            if len(cells) >= 4 and sorted(set(labs)) == list(range(len(set(labs)))) and len(set(labs)) >= 2:
+                break
+        else:
+            return gen_instance(rng, nmax, nu, m, tie_free, kinds=("lattice",))
+        extra = [[float(rng.randint(-1, gw)), float(rng.randint(-1, gh))] for _ in range(nu + m)]
+        metric = rng.choice(["euclidean", "manhattan", "squared_euclidean", "chebyshev", "log_squared_euclidean"])
+        X = cells + extra
+        return Instance("gridcut", X, labs, metric_matrix(metric, X), nu, m, metric)
     if kind == "literal":
         # rows as a user types them (whole numbers in some rows, fractions in others), handed over as lists / tuples / a list
         # of per-row arrays (see _rows)
